@@ -4,13 +4,16 @@ R10.1 (BytesAI) output buffer, for all buffer sizes B >= vrl and all record leng
       preserved; the slice store has exactly len(record) bytes and stays inside the buffer (the bytearray never
       resizes, nothing is cut); a flush writes exactly buf[:filled] and resets filled to 0; whatever was buffered is
       flushed *before* the new record is copied (FIFO), so concatenating the flushes reproduces the add_bytes arguments.
-R10.2 flushes happen only between whole add_bytes arguments (R01.8: each argument is one whole visible record).
+R10.2 flushes happen only between whole add_bytes arguments, and each argument is one whole visible record - header and
+      segment together (= C01 R01.7 on the interpreted record loop).
 R10.3 (BytesAI typestate) first physical write truncates ('wb'), later ones append ('ab'); the byte counter adds the
       number of bytes actually written.
 R10.4 (BytesAI) the output chunk validator accepts exactly the integral numbers >= the record length; None => default.
 R10.5 (BytesAI tiling) input chunks for all n >= 1 rows and chunk sizes c >= 1: the (start, stop) pairs tile [0, n) in
       order, are inside the window-relative range and map to source rows from_idx+start .. from_idx+stop.
-R10.6 (def-use) the two chunk parameters flow only into the chunk generator / the buffer size.
+R10.6 the two chunk parameters flow only into the chunk generator / the buffer size: def-use in write(), and a package-wide,
+      key-sensitive forwarding closure of input_chunk_size over the value-flow summaries (through keyword mappings and
+      instance fields): outside the chunk generator the value is only handed on, stored, validated or logged.
 """
 
 from __future__ import annotations
@@ -29,7 +32,7 @@ LEVEL = "proof"
 EXPLANATION = ("Buffer arithmetic, file-mode typestate, chunk-size validation and input-chunk tiling are discharged "
                "for all buffer sizes, record lengths, row counts and chunk sizes at once by the abstract interpreter "
                "(linear constraints over symbolic sizes; the products i*c, q*c of the tiling are handled as monomials "
-               "with monotonicity lemmas); the flow of the two chunk parameters is enumerated by def-use. Not decided: "
+               "with monotonicity lemmas); the flow of the two chunk parameters is enumerated by def-use and by a package-wide forwarding closure. Not decided: "
                "the operating system's behaviour on a partial write.")
 TRUSTED = ["Python semantics of the modelled subset (bytearray slice assignment resizes unless lengths agree; "
            "divmod; open modes 'wb' truncates / 'ab' appends)", "sa/absint.py, sa/linarith.py"]
